@@ -3,3 +3,4 @@
 //! stream for the Lean model driver plus the implementation's replies.
 #![allow(dead_code)]
 pub mod common;
+pub mod sign;
